@@ -61,7 +61,7 @@ Definition uncovered_rule_x86 : rule := JustReturnIfFirstFrameOtherwiseFp.
 (* the generic path of DwarfUnwinding::unwind_frame (after translation failed) *)
 Definition generic_x86 (rw : row) (first : bool) (rg : regs) (m : mem) : cb_result rule regs :=
   match eval_cfa_rule (x86_getreg rg) (r_cfa rw) with
-  | None => CbErr rg                                         (* CouldNotRecoverCfa *)
+  | None => CbErrV rg                                         (* CouldNotRecoverCfa *)
   | Some cfa =>
     let i := ip rg in let b := bp rg in let s := sp rg in
     let new_bp := match eval_register_rule (x86_getreg rg) (r_fp rw) cfa b m with
@@ -71,10 +71,10 @@ Definition generic_x86 (rw : row) (first : bool) (rg : regs) (m : mem) : cb_resu
                | None => obind (sub64c cfa 8) m          (* checked_sub: fix for S4 *)
                end in
     match ora with
-    | None => CbErr rg                                       (* CouldNotRecoverReturnAddress *)
+    | None => CbErrV rg                                       (* CouldNotRecoverReturnAddress *)
     | Some ra =>
-      if (cfa =? s) && (ra =? i) then CbErr rg               (* DidNotAdvance *)
-      else if negb first && (cfa <? s) then CbErr rg         (* StackPointerMovedBackwards *)
+      if (cfa =? s) && (ra =? i) then CbErrV rg               (* DidNotAdvance *)
+      else if negb first && (cfa <? s) then CbErrV rg         (* StackPointerMovedBackwards *)
       else CbUncacheable ra (set_sp (set_bp (set_ip rg ra) new_bp) cfa)
     end
   end.
